@@ -35,6 +35,37 @@ pub fn padding_consumes_rest() {
     core::mem::forget(d);
 }
 
+/// Padding of any length up to 70000 bytes: a zero first nibble followed by anything (one
+/// symbolic byte at a symbolic position, and the low nibble of the first byte) is padding
+/// and consumes the whole rest of the frame.
+#[kani::proof]
+#[kani::unwind(8)]
+#[kani::stub(dvb_gse_rust::gse_decap::read_gse_header, crate::dmodels::hdr_padding)]
+pub fn padding_lattice() {
+    let (mem, g) = build_ref_ghost::<1, 6>(&crate::rx::S1_O1);
+    let before = count_bufs(&mem);
+    let mut d = Decapsulator::new(mem, ConstCrc(0), TestMgr);
+    d.verif_set_last_label(any_rx_label());
+    let k = any_len(70000);
+    kani::assume(k >= 2);
+    let mut buf = zeros(k);
+    let low: u8 = kani::any();
+    buf[0] = low & 0x0F;
+    let i = any_len(70000);
+    if i >= 1 && i < k {
+        buf[i] = kani::any();
+    }
+    let r = d.decap(&buf[..]);
+    match &r {
+        Ok((DecapStatus::Padding, consumed)) => assert!(*consumed == k, "C10.padding_consumes_rest_of_frame"),
+        _ => assert!(false, "C10.zero_nibble_is_padding"),
+    }
+    assert!(slot_unchanged(&d.memory, &g, 0) && count_bufs(&d.memory) == before, "C07.padding_leaves_memory");
+    kani::cover!(k > 65536, "padding_longer_than_16_bits");
+    core::mem::forget(r);
+    core::mem::forget(d);
+}
+
 /// Literal frame walk, one formula (optional deepening; the general statement is the
 /// induction over the rx.rs lemmas): [complete packet written by the real encap, 3-byte
 /// PDU, broadcast label][zero padding]; walking by consumed lengths sees the packet, then
